@@ -71,8 +71,12 @@ impl CharacterData {
                 // content is not an enum item, but an enum item is expected
                 (false, u32::MAX)
             }
-        } else {
+        } else if Self::check_value(self, data_spec, target_version) {
             (true, u32::MAX)
+        } else {
+            // the value does not fit the specification which the element has in the target version,
+            // e.g. a free text in an element whose type is restricted by a pattern in that version
+            (false, !(target_version as u32))
         }
     }
 
